@@ -1,3 +1,625 @@
-//! C15 (stub: no cases yet)
+//! C15 — drop ledger over konst's by-value array APIs (ArrayConsumer, ArrayBuilder,
+//! array::map_!, array::from_fn_!).  Elements are instrumented: every hand-over, drop and
+//! clone is an event; payloads are checked bit-for-bit whenever an element is seen.
+//! The model column is coq/Model/Ledger.v run on the same history.
 use crate::common::*;
-pub fn run(_cfg: &Cfg, _out: &mut Out) {}
+use konst::array::{ArrayBuilder, ArrayConsumer};
+use std::cell::{Cell, RefCell};
+use std::mem::ManuallyDrop;
+use std::panic::{catch_unwind, AssertUnwindSafe};
+
+#[derive(Clone, Copy, PartialEq, Debug)]
+pub enum Ev {
+    Hand(u32),
+    Drop(u32),
+    Cl(u32, u32),
+    Corrupt(u32),
+}
+
+thread_local! {
+    static LOG: RefCell<Vec<Ev>> = RefCell::new(Vec::new());
+    static NEXT: Cell<u32> = Cell::new(1);
+    static BOMB: Cell<i64> = Cell::new(-1);
+}
+
+pub fn mix(id: u32) -> u64 {
+    (id as u64).wrapping_mul(0x9E37_79B9_7F4A_7C15) ^ 0xA5A5_5A5A_0F0F_F0F0
+}
+pub fn reset(next: u32) {
+    LOG.with(|l| l.borrow_mut().clear());
+    NEXT.with(|n| n.set(next));
+    BOMB.with(|b| b.set(-1));
+}
+pub fn log(e: Ev) {
+    LOG.with(|l| l.borrow_mut().push(e));
+}
+pub fn take_log() -> Vec<Ev> {
+    LOG.with(|l| std::mem::take(&mut *l.borrow_mut()))
+}
+pub fn next_id() -> u32 {
+    NEXT.with(|n| n.get())
+}
+fn fresh_id() -> u32 {
+    NEXT.with(|n| {
+        let v = n.get();
+        n.set(v + 1);
+        v
+    })
+}
+pub fn set_bomb(j: i64) {
+    BOMB.with(|b| b.set(j));
+}
+/// the j-th clone call after `set_bomb(j)` panics
+fn bomb_tick() {
+    BOMB.with(|b| {
+        let v = b.get();
+        if v == 0 {
+            b.set(-1);
+            panic!("clone bomb");
+        }
+        if v > 0 {
+            b.set(v - 1);
+        }
+    })
+}
+
+pub trait Elem: Clone {
+    const ZST: bool;
+    fn fresh() -> Self;
+    fn id(&self) -> u32;
+    fn intact(&self) -> bool;
+}
+
+/// ledger element: identity + a payload derived from it
+pub struct E {
+    id: u32,
+    pay: u64,
+}
+impl Elem for E {
+    const ZST: bool = false;
+    fn fresh() -> E {
+        let id = fresh_id();
+        E { id, pay: mix(id) }
+    }
+    fn id(&self) -> u32 {
+        self.id
+    }
+    fn intact(&self) -> bool {
+        self.pay == mix(self.id)
+    }
+}
+impl Clone for E {
+    fn clone(&self) -> E {
+        bomb_tick();
+        let n = fresh_id();
+        log(Ev::Cl(self.id, n));
+        E { id: n, pay: mix(n) }
+    }
+}
+impl Drop for E {
+    fn drop(&mut self) {
+        if self.pay != mix(self.id) {
+            log(Ev::Corrupt(self.id));
+        }
+        log(Ev::Drop(self.id));
+    }
+}
+
+/// zero-sized ledger element: only counts can be observed (every id prints as 0)
+pub struct Zs;
+impl Elem for Zs {
+    const ZST: bool = true;
+    fn fresh() -> Zs {
+        fresh_id();
+        Zs
+    }
+    fn id(&self) -> u32 {
+        0
+    }
+    fn intact(&self) -> bool {
+        true
+    }
+}
+impl Clone for Zs {
+    fn clone(&self) -> Zs {
+        bomb_tick();
+        fresh_id();
+        log(Ev::Cl(0, 0));
+        Zs
+    }
+}
+impl Drop for Zs {
+    fn drop(&mut self) {
+        log(Ev::Drop(0));
+    }
+}
+
+/// the caller takes ownership of an element: record it and keep its destructor from
+/// running (a later drop of the same identity would be a duplicate)
+pub fn hand<T: Elem>(e: T) -> u32 {
+    let id = e.id();
+    if !e.intact() {
+        log(Ev::Corrupt(id));
+    }
+    log(Ev::Hand(id));
+    std::mem::forget(e);
+    id
+}
+
+pub fn show_ev(e: &Ev) -> String {
+    match e {
+        Ev::Hand(i) => format!("H{}", i),
+        Ev::Drop(i) => format!("D{}", i),
+        Ev::Cl(s, n) => format!("C{}>{}", s, n),
+        Ev::Corrupt(i) => format!("CORRUPT{}", i),
+    }
+}
+pub fn show_evs(l: &[Ev]) -> String {
+    if l.is_empty() {
+        return "-".into();
+    }
+    l.iter().map(show_ev).collect::<Vec<_>>().join(".")
+}
+pub fn show_ids(l: &[u32]) -> String {
+    show_list(l.iter(), |i| i.to_string())
+}
+/// ids in [lo, hi) that no event accounts for
+pub fn leaked(evs: &[Ev], lo: u32, hi: u32) -> Vec<u32> {
+    (lo..hi)
+        .filter(|i| !evs.iter().any(|e| matches!(e, Ev::Hand(j) | Ev::Drop(j) if j == i)))
+        .collect()
+}
+
+// ---------------------------------------------------------------- histories
+
+pub type Op = (u8, u8, u8); // code, object, extra
+
+enum Obj<T, const N: usize> {
+    C(ArrayConsumer<T, N>),
+    B(ArrayBuilder<T, N>),
+    Gone,
+}
+
+fn ids_of<T: Elem>(s: &[T]) -> Vec<u32> {
+    s.iter()
+        .map(|e| {
+            if !e.intact() {
+                log(Ev::Corrupt(e.id()));
+            }
+            e.id()
+        })
+        .collect()
+}
+
+fn view<T: Elem, const N: usize>(o: &Obj<T, N>) -> String {
+    match o {
+        Obj::C(c) => show_ids(&ids_of(c.as_slice())),
+        Obj::B(b) => format!("{}#{}{}", show_ids(&ids_of(b.as_slice())), b.len(), show_bool(b.is_full())),
+        Obj::Gone => "-".into(),
+    }
+}
+
+/// 0 = consumer, 1 = builder, 2 = gone
+pub type Kinds = Vec<u8>;
+
+/// run one history from scratch; returns the rendered line, or None when an op addresses a
+/// missing object or one of the wrong kind (never enumerated)
+fn exec<T: Elem, const N: usize>(kind: u8, ops: &[Op]) -> Option<(String, Kinds)> {
+    reset(1);
+    let mut objs: Vec<Obj<T, N>> = Vec::new();
+    match kind {
+        0 => objs.push(Obj::C(ArrayConsumer::new(std::array::from_fn(|_| T::fresh())))),
+        1 => objs.push(Obj::B(ArrayBuilder::new())),
+        _ => objs.push(Obj::C(ArrayConsumer::empty())),
+    }
+    let mut per_op: Vec<String> = Vec::new();
+    for &(code, k, extra) in ops {
+        let k = k as usize;
+        if k >= objs.len() {
+            return None;
+        }
+        let ret: String = match code {
+            1 | 2 => {
+                let c = match &mut objs[k] {
+                    Obj::C(c) => c,
+                    _ => return None,
+                };
+                let r = catch_unwind(AssertUnwindSafe(|| if code == 1 { c.next() } else { c.next_back() }));
+                match r {
+                    Ok(Some(md)) => format!("S({})", hand(ManuallyDrop::into_inner(md))),
+                    Ok(None) => "N".into(),
+                    Err(_) => "PANIC".into(),
+                }
+            }
+            3 | 4 => {
+                if code == 4 {
+                    set_bomb(extra as i64);
+                }
+                let r = match &objs[k] {
+                    Obj::C(c) => catch_unwind(AssertUnwindSafe(|| Obj::C(c.clone()))),
+                    Obj::B(b) => catch_unwind(AssertUnwindSafe(|| Obj::B(b.clone()))),
+                    Obj::Gone => return None,
+                };
+                set_bomb(-1);
+                match r {
+                    Ok(o) => {
+                        objs.push(o);
+                        format!("n{}", objs.len() - 1)
+                    }
+                    Err(_) => "PANIC".into(),
+                }
+            }
+            5 => {
+                let o = std::mem::replace(&mut objs[k], Obj::Gone);
+                if let Obj::Gone = o {
+                    return None;
+                }
+                match catch_unwind(AssertUnwindSafe(move || drop(o))) {
+                    Ok(()) => "u".into(),
+                    Err(_) => "PANIC".into(),
+                }
+            }
+            6 => {
+                if !matches!(objs[k], Obj::C(_)) {
+                    return None;
+                }
+                let o = std::mem::replace(&mut objs[k], Obj::Gone);
+                let c = match o {
+                    Obj::C(c) => c,
+                    _ => unreachable!(),
+                };
+                match catch_unwind(AssertUnwindSafe(move || c.assert_is_empty())) {
+                    Ok(()) => "u".into(),
+                    Err(_) => "PANIC".into(),
+                }
+            }
+            7 => {
+                let b = match &mut objs[k] {
+                    Obj::B(b) => b,
+                    _ => return None,
+                };
+                let x = T::fresh();
+                match catch_unwind(AssertUnwindSafe(move || b.push(x))) {
+                    Ok(()) => "u".into(),
+                    Err(_) => "PANIC".into(),
+                }
+            }
+            8 => {
+                if !matches!(objs[k], Obj::B(_)) {
+                    return None;
+                }
+                let o = std::mem::replace(&mut objs[k], Obj::Gone);
+                let b = match o {
+                    Obj::B(b) => b,
+                    _ => unreachable!(),
+                };
+                match catch_unwind(AssertUnwindSafe(move || b.build())) {
+                    Ok(arr) => {
+                        let ids: Vec<u32> = arr.into_iter().map(hand).collect();
+                        format!("A{}", show_ids(&ids))
+                    }
+                    Err(_) => "PANIC".into(),
+                }
+            }
+            9 => {
+                let o = std::mem::replace(&mut objs[k], Obj::Gone);
+                if let Obj::Gone = o {
+                    return None;
+                }
+                std::mem::forget(o);
+                "u".into()
+            }
+            _ => return None,
+        };
+        let v = view(&objs[k]);
+        let evs = take_log();
+        per_op.push(format!("{}/{}/{}", ret, v, show_evs(&evs)));
+    }
+    let kinds: Kinds = objs
+        .iter()
+        .map(|o| match o {
+            Obj::C(_) => 0,
+            Obj::B(_) => 1,
+            Obj::Gone => 2,
+        })
+        .collect();
+    // end of the history: every object still alive is dropped, in index order
+    for o in objs.into_iter() {
+        drop(o);
+    }
+    let fin = take_log();
+    Some((fields(&[("ops", format!("[{}]", per_op.join(","))), ("end", show_evs(&fin))]), kinds))
+}
+
+fn show_ops(ops: &[Op]) -> String {
+    show_list(ops.iter(), |(c, k, e)| format!("[{},{},{}]", c, k, e))
+}
+
+fn tag_of(ops: &[Op], line: &str) -> String {
+    let mut t: Vec<&str> = Vec::new();
+    let has = |c: u8| ops.iter().any(|o| o.0 == c);
+    if has(1) && has(2) {
+        t.push("bothends");
+    }
+    if has(3) {
+        t.push("clone");
+    }
+    if has(4) {
+        t.push("bomb");
+    }
+    if has(8) {
+        t.push("build");
+    }
+    if line.contains("PANIC") {
+        t.push("panic");
+    }
+    if t.is_empty() { "-".into() } else { t.join("+") }
+}
+
+struct Enum<'a> {
+    out: &'a mut Out,
+    fam: &'a str,
+    max_objs: usize,
+    bombs: bool,
+}
+
+fn dfs<T: Elem, const N: usize>(en: &mut Enum, kind: u8, ops: &mut Vec<Op>, depth: usize) {
+    let (line, kinds) = match exec::<T, N>(kind, ops) {
+        Some(x) => x,
+        None => return,
+    };
+    let args = format!("{} {} {} {}", kind, N, if T::ZST { 1 } else { 0 }, show_ops(ops));
+    en.out.line(en.fam, &args, &line, "-", &tag_of(ops, &line));
+    if depth == 0 {
+        return;
+    }
+    for (k, kd) in kinds.iter().enumerate() {
+        let k = k as u8;
+        let mut cand: Vec<Op> = Vec::new();
+        match kd {
+            0 => {
+                cand.push((1, k, 0));
+                cand.push((2, k, 0));
+                cand.push((5, k, 0));
+                cand.push((6, k, 0));
+            }
+            1 => {
+                cand.push((7, k, 0));
+                cand.push((8, k, 0));
+                cand.push((5, k, 0));
+            }
+            _ => continue,
+        }
+        if kinds.len() < en.max_objs {
+            cand.push((3, k, 0));
+            if en.bombs {
+                for j in 0..N {
+                    cand.push((4, k, j as u8));
+                }
+            }
+        }
+        for c in cand {
+            ops.push(c);
+            dfs::<T, N>(en, kind, ops, depth - 1);
+            ops.pop();
+        }
+    }
+}
+
+fn hist_all<T: Elem>(en: &mut Enum, kind: u8, n: usize, depth: usize) {
+    let mut ops = Vec::new();
+    match n {
+        0 => dfs::<T, 0>(en, kind, &mut ops, depth),
+        1 => dfs::<T, 1>(en, kind, &mut ops, depth),
+        2 => dfs::<T, 2>(en, kind, &mut ops, depth),
+        3 => dfs::<T, 3>(en, kind, &mut ops, depth),
+        _ => dfs::<T, 4>(en, kind, &mut ops, depth),
+    }
+}
+
+fn exec_n<T: Elem>(kind: u8, n: usize, ops: &[Op]) -> Option<(String, Kinds)> {
+    match n {
+        0 => exec::<T, 0>(kind, ops),
+        1 => exec::<T, 1>(kind, ops),
+        2 => exec::<T, 2>(kind, ops),
+        3 => exec::<T, 3>(kind, ops),
+        4 => exec::<T, 4>(kind, ops),
+        5 => exec::<T, 5>(kind, ops),
+        _ => exec::<T, 6>(kind, ops),
+    }
+}
+
+/// seeded random longer histories (depth <= 15) on up to 4 objects of capacity <= 6
+fn hist_random<T: Elem>(out: &mut Out, fam: &str, rng: &mut Rng, kind: u8, count: usize) {
+    for _ in 0..count {
+        let n = rng.below(7) as usize;
+        let len = 1 + rng.below(15) as usize;
+        let mut ops: Vec<Op> = Vec::new();
+        let mut last: Option<(String, Kinds)> = exec_n::<T>(kind, n, &ops);
+        for _ in 0..len {
+            let kinds = match &last {
+                Some((_, k)) => k.clone(),
+                None => break,
+            };
+            let alive: Vec<usize> = (0..kinds.len()).filter(|i| kinds[*i] != 2).collect();
+            if alive.is_empty() {
+                break;
+            }
+            let k = *rng.pick(&alive);
+            let code = if kinds[k] == 0 {
+                // favour next / next_back over the consuming ops
+                *rng.pick(&[1u8, 1, 1, 2, 2, 2, 3, 4, 5, 6])
+            } else {
+                *rng.pick(&[7u8, 7, 7, 7, 7, 3, 4, 5, 8, 8])
+            };
+            if (code == 3 || code == 4) && kinds.len() >= 4 {
+                continue;
+            }
+            let extra = if code == 4 { rng.below(n as u64 + 1) as u8 } else { 0 };
+            ops.push((code, k as u8, extra));
+            match exec_n::<T>(kind, n, &ops) {
+                Some(x) => last = Some(x),
+                None => {
+                    ops.pop();
+                }
+            }
+        }
+        if let Some((line, _)) = exec_n::<T>(kind, n, &ops) {
+            let args = format!("{} {} {} {}", kind, n, if T::ZST { 1 } else { 0 }, show_ops(&ops));
+            out.line(fam, &args, &line, "-", &tag_of(&ops, &line));
+        }
+    }
+}
+
+/// regression-style witnesses first: the shapes a wrong Drop/Clone range would hit
+fn witnesses(out: &mut Out, fam: &str, kinds: &[u8]) {
+    let ws: Vec<(u8, usize, Vec<Op>)> = vec![
+        (0, 3, vec![(1, 0, 0), (2, 0, 0), (5, 0, 0)]),
+        (0, 3, vec![(1, 0, 0), (3, 0, 0), (2, 1, 0), (1, 1, 0), (1, 1, 0), (6, 1, 0)]),
+        (0, 2, vec![(1, 0, 0), (1, 0, 0), (6, 0, 0)]),
+        (0, 3, vec![(2, 0, 0), (4, 0, 1)]),
+        (1, 2, vec![(7, 0, 0), (7, 0, 0), (7, 0, 0), (8, 0, 0)]),
+        (1, 3, vec![(7, 0, 0), (7, 0, 0), (8, 0, 0)]),
+        (1, 3, vec![(7, 0, 0), (7, 0, 0), (4, 0, 1), (3, 0, 0), (7, 1, 0), (8, 1, 0)]),
+        (2, 2, vec![(1, 0, 0), (2, 0, 0), (3, 0, 0), (6, 0, 0)]),
+    ];
+    for (kind, n, ops) in ws {
+        if !kinds.contains(&kind) {
+            continue;
+        }
+        if let Some((line, _)) = exec_n::<E>(kind, n, &ops) {
+            out.line(fam, &format!("{} {} 0 {}", kind, n, show_ops(&ops)), &line, "-", &tag_of(&ops, &line));
+        }
+    }
+}
+
+/// histories of the given initial kinds under family `fam` (also used by C11 for builders)
+pub fn histories(cfg: &Cfg, out: &mut Out, fam: &str, kinds: &[u8]) {
+    witnesses(out, fam, kinds);
+    let depth = if cfg.thorough { 7 } else { 6 };
+    for &kind in kinds {
+        for n in 0..=3usize {
+            // full op set (clone bombs, up to 3 objects) to a smaller depth ...
+            let mut en = Enum { out, fam, max_objs: 3, bombs: true };
+            hist_all::<E>(&mut en, kind, n, depth - 2);
+            // ... and the plain ops (one clone allowed) to the full depth
+            let mut en = Enum { out, fam, max_objs: 2, bombs: false };
+            hist_all::<E>(&mut en, kind, n, depth);
+            let mut en = Enum { out, fam, max_objs: 2, bombs: false };
+            hist_all::<Zs>(&mut en, kind, n, depth - 2);
+        }
+        if cfg.thorough {
+            let mut en = Enum { out, fam, max_objs: 2, bombs: true };
+            hist_all::<E>(&mut en, kind, 4, 5);
+        }
+    }
+    let mut rng = Rng::new(cfg.seed ^ 0xC15);
+    for &kind in kinds {
+        hist_random::<E>(out, fam, &mut rng, kind, if cfg.thorough { 20000 } else { 3000 });
+        hist_random::<Zs>(out, fam, &mut rng, kind, if cfg.thorough { 2000 } else { 300 });
+    }
+}
+
+// ---------------------------------------------------------------- map_! / from_fn_!
+
+fn all_scripts(n: usize) -> Vec<Vec<u8>> {
+    all_seqs(&[0u8, 1, 2, 3, 4], n).into_iter().filter(|s| s.len() == n).collect()
+}
+fn script_tag(s: &[u8]) -> String {
+    let names = ["", "break", "continue", "return", "panic"];
+    let mut t: Vec<&str> = Vec::new();
+    for c in 1..5u8 {
+        if s.contains(&c) {
+            t.push(names[c as usize]);
+        }
+    }
+    if t.is_empty() { if s.is_empty() { "-".into() } else { "values".into() } } else { t.join("+") }
+}
+
+fn map_case<const N: usize>(script: &[u8]) -> String {
+    reset(1);
+    let arr: [E; N] = std::array::from_fn(|_| E::fresh());
+    let mut k = 0usize;
+    let r = catch_unwind(AssertUnwindSafe(|| -> Option<[E; N]> {
+        let out: [E; N] = konst::array::map_!(arr, |x: E| {
+            let c = script[k];
+            k += 1;
+            match c {
+                0 => {
+                    hand(x);
+                    E::fresh()
+                }
+                1 => break,
+                2 => continue,
+                3 => return None,
+                _ => panic!("script"),
+            }
+        });
+        Some(out)
+    }));
+    let res = match r {
+        Ok(Some(out)) => {
+            let ids: Vec<u32> = out.into_iter().map(hand).collect();
+            format!("B{}", show_ids(&ids))
+        }
+        Ok(None) => "RET".into(),
+        Err(_) => "PANIC".into(),
+    };
+    let evs = take_log();
+    let leak = leaked(&evs, 1, next_id());
+    fields(&[("res", res), ("ev", show_evs(&evs)), ("leak", show_ids(&leak))])
+}
+
+fn from_fn_case<const N: usize>(script: &[u8]) -> String {
+    reset(1);
+    let mut k = 0usize;
+    let r = catch_unwind(AssertUnwindSafe(|| -> Option<[E; N]> {
+        let out: [E; N] = konst::array::from_fn_!(|_i| {
+            let c = script[k];
+            k += 1;
+            match c {
+                0 => E::fresh(),
+                1 => break,
+                2 => continue,
+                3 => return None,
+                _ => panic!("script"),
+            }
+        });
+        Some(out)
+    }));
+    let res = match r {
+        Ok(Some(out)) => {
+            let ids: Vec<u32> = out.into_iter().map(hand).collect();
+            format!("B{}", show_ids(&ids))
+        }
+        Ok(None) => "RET".into(),
+        Err(_) => "PANIC".into(),
+    };
+    let evs = take_log();
+    fields(&[("res", res), ("ev", show_evs(&evs))])
+}
+
+fn map_family(cfg: &Cfg, out: &mut Out) {
+    let maxn = if cfg.thorough { 6 } else { 5 };
+    for n in 0..=maxn {
+        for s in all_scripts(n) {
+            let (a, b) = match n {
+                0 => (map_case::<0>(&s), from_fn_case::<0>(&s)),
+                1 => (map_case::<1>(&s), from_fn_case::<1>(&s)),
+                2 => (map_case::<2>(&s), from_fn_case::<2>(&s)),
+                3 => (map_case::<3>(&s), from_fn_case::<3>(&s)),
+                4 => (map_case::<4>(&s), from_fn_case::<4>(&s)),
+                5 => (map_case::<5>(&s), from_fn_case::<5>(&s)),
+                _ => (map_case::<6>(&s), from_fn_case::<6>(&s)),
+            };
+            let args = format!("{} {}", n, show_list(s.iter(), |c| c.to_string()));
+            out.line("c15.map_", &args, &a, "-", &script_tag(&s));
+            out.line("c15.from_fn_", &args, &b, "-", &script_tag(&s));
+        }
+    }
+}
+
+pub fn run(cfg: &Cfg, out: &mut Out) {
+    histories(cfg, out, "c15.hist", &[0, 1, 2]);
+    map_family(cfg, out);
+}
